@@ -291,9 +291,19 @@ def api_list():
 
     def total_error(sc, D, E, M, U):
         g = np.full(sc['data'].shape, 2.0)
+        g[2:5, 3:6] = 0.0                     # an exposure map with zero-exposure pixels (no source variance there)
+        gbig = np.full((sc['data'].shape[0] + 2, sc['data'].shape[1] + 3), 1.5)
+        gbig[1:-1, 2:-1] = g
+        gview = gbig[1:-1, 2:-1]              # the gain as a view of a larger caller array
         gain = g if U is None else g * (u.electron / U)
-        ins = dict(data=D, bkg_error=E, gain=gain)
-        return ins, lambda: calc_total_error(D, E, gain)
+        gain2 = gview if U is None else gview * (u.electron / U)
+        ins = dict(data=D, bkg_error=E, gain=gain, gain_parent=gbig, gain_view=gain2)
+
+        def go():
+            calc_total_error(D, E, gain)
+            calc_total_error(D, E, gain2)
+            calc_total_error(D, E, 2.0 if U is None else 2.0 * (u.electron / U))
+        return ins, go
 
     def psf(sc, D, E, M, U):
         model = ppsf.CircularGaussianPRF(fwhm=3.0)
